@@ -14,6 +14,8 @@ import (
 	"strings"
 
 	"github.com/99designs/gqlgen/codegen/templates"
+	"golang.org/x/text/cases"
+	"golang.org/x/text/language"
 
 	"verifharness/internal/rng"
 )
@@ -65,9 +67,32 @@ func isRoot(n string) bool { return n == "Query" || n == "Mutation" }
 var fieldWords = []string{"todos", "user", "items", "count", "owner", "title", "fooBar", "created_at", "url", "itemId", "next", "total", "meta", "tags", "parent", "score"}
 var typeWords = []string{"Todo", "User", "Item", "Profile", "Tag", "Order", "Node2", "Account", "gadget"}
 
+// Names that exercise Go name mangling (templates.LcFirst / UcFirst / ToGo / ToGoPrivate, cases.Title treat
+// them differently): initialisms at the start / in the middle / at the end, all-caps, snake_case and other
+// underscores, leading lower case, digits, single letters, names that lower-case to a Go keyword, and groups
+// that collide after mangling (ToGo(URLInfo) = ToGo(UrlInfo), ToGo(user_id) = ToGo(userId) = ToGo(UserID);
+// freshType / freshField draw again when a name collides with one already in the schema, so that the
+// colliding members get used in different cases / at different times).
+var mangleTypeWords = []string{
+	"URLInfo", "UrlInfo", "APIKey", "ApiKey", "HTTPHeader", "SKU", "Sku", "IDCard", "UserID", "userId", "user_id", "GetHTTPUrl",
+	"XMLHttpRequest", "Html5Doc", "ItemURL", "SomeAPIThing", "audit_entry", "AuditEntry", "my_Type", "Foo_Bar", "foo__bar", "FooBar",
+	"Item_", "Z9_z", "v2Thing", "tLS", "iPhone", "A1", "K8sPod", "X", "y", "Type", "Map", "Range", "Func", "Ascii2HTML", "nodeID",
+}
+var mangleFieldWords = []string{
+	"URL", "uRL", "userId", "user_id", "userID", "UserID", "apiKey", "APIKey", "api_key", "httpStatus", "HTTPStatus", "x", "Y", "a1",
+	"n2o", "updated_at", "_private", "trailing_", "type", "func", "map", "range", "html5", "skuID", "sku_id", "SKU", "foo_bar",
+	"FooBar", "getURLForID", "ip", "IPAddress", "jsonBody", "q",
+}
+
+// mangling selects how often the wide pools are drawn from (percent); set per case by the worker.
+var manglePct = 0
+
 func (s *Schema) freshField(r *rng.R, t *SType) string {
 	for {
 		w := fieldWords[r.Below(len(fieldWords))]
+		if r.Below(100) < manglePct {
+			w = mangleFieldWords[r.Below(len(mangleFieldWords))]
+		}
 		if r.Below(3) == 0 {
 			s.n++
 			w = fmt.Sprintf("%s%d", w, s.n)
@@ -86,15 +111,32 @@ func (s *Schema) freshField(r *rng.R, t *SType) string {
 	}
 }
 
+// typeFree: gqlgen derives Go identifiers from a type name in several ways (model struct ToGo, resolver struct
+// LcFirst+"Resolver", accessor UcFirst); two types that agree on any of them do not give a package that compiles.
+func (s *Schema) typeFree(w string) bool {
+	if isRoot(w) || w == "Resolver" || w == "Subscription" {
+		return false
+	}
+	for _, t := range s.Types {
+		if t.Name == w || templates.ToGo(t.Name) == templates.ToGo(w) || strings.EqualFold(t.Name, w) {
+			return false
+		}
+	}
+	return true
+}
+
 func (s *Schema) freshType(r *rng.R) string {
 	for {
 		w := typeWords[r.Below(len(typeWords))]
-		if s.typ(w) == nil {
+		if r.Below(100) < manglePct {
+			w = mangleTypeWords[r.Below(len(mangleTypeWords))]
+		}
+		if s.typeFree(w) {
 			return w
 		}
 		s.n++
 		w = fmt.Sprintf("%s%d", w, s.n)
-		if s.typ(w) == nil {
+		if s.typeFree(w) {
 			return w
 		}
 	}
@@ -459,6 +501,28 @@ type OObj struct {
 	File         string   `json:"file"`
 	HasResolvers bool     `json:"hasResolvers"`
 	Fields       []OField `json:"fields"`
+}
+
+// OName: what the real name helpers return for a type name (input of the model, which computes LcFirst /
+// UcFirst itself and takes the rest as given).
+type OName struct {
+	Name      string `json:"name"`
+	GoPrivate string `json:"goPrivate"`
+	GoPublic  string `json:"goPublic"`
+	Title     string `json:"title"`
+	LcFirst   string `json:"lcFirst"` // not read by the model (it computes these two itself): used by the check to describe a failing input
+	UcFirst   string `json:"ucFirst"`
+}
+
+func (s *Schema) names() []OName {
+	caser := cases.Title(language.English, cases.NoLower)
+	var out []OName
+	for _, t := range s.Types {
+		out = append(out, OName{Name: t.Name, GoPrivate: templates.ToGoPrivate(t.Name), GoPublic: templates.ToGo(t.Name),
+			Title: caser.String(t.Name), LcFirst: templates.LcFirst(t.Name), UcFirst: templates.UcFirst(t.Name)})
+	}
+	sort.SliceStable(out, func(i, j int) bool { return out[i].Name < out[j].Name })
+	return out
 }
 
 func resolverFile(layout, schemaFile string) string {
